@@ -191,6 +191,12 @@ def run_contract_case(I, contract, case, timeout_ms=None, registry=None):
                 verdict, backend, model, dt = smt.prove(o.hyps, o.goal, timeout_ms=timeout_ms)
                 rec = {"name": o.name, "where": o.where, "kind": o.kind, "verdict": verdict, "backend": backend,
                        "time": round(dt, 4), "contract": contract.name, "case": repr(case)}
+                if ctx.bounded:
+                    # bounded stand-in (a loop without invariant was unrolled): nothing on this path counts as proved
+                    rec["bounded"] = "; ".join(sorted(set(ctx.bounded)))
+                    if verdict == "proved":
+                        rec["verdict"] = "unknown"
+                        rec["backend"] = backend + "+bounded-unrolling(not a proof)"
                 if CROSS_CHECK and verdict in ("proved", "failed") and backend == "z3":
                     c5 = smt.cross_check_cvc5(o.hyps, o.goal)
                     rec["cvc5_cross_check"] = c5
